@@ -408,7 +408,7 @@ def _enabled_gate(repo, r, f):
 
     for p in paths:
         t = p[-1]
-        if not cfg.returns_nonempty(t):
+        if not cfg.path_returns_nonempty(p):
             continue
         if not any(ev[0] == "test" and implies(ev[1], ev[2]) for ev in p[:-1]):
             return norm(t[1])
